@@ -183,10 +183,17 @@ LoaderCalls(calls) == SelectSeq(calls, LAMBDA c : c.op \in {"Exists", "Open"})
 CacheCalls(calls)  == SelectSeq(calls, LAMBDA c : c.op \in {"Get", "Put"})
 Stepped == nops' = nops + 1
 
-\* a successful GetTemplate is remembered: identical template, loader untouched
+\* a successful GetTemplate is remembered: identical template, loader untouched.
+\* Documented corner (Cache.Get / Set.GetTemplate: all candidate paths are probed in the cache first): if a
+\* candidate path of n that comes *before* the one n was found at has meanwhile been cached by a request for
+\* another name (x.jet vs x), that entry answers instead; the loader is still not touched.
+EarlierCandidateCached(n, t) ==
+  LET c == Cand(n) IN
+  \E i, j \in 1..Len(c) : i < j /\ c[j] = t.path /\ cache[c[i]] # NoT
 HitIdentity ==
   [][ (Stepped /\ ~Dev /\ last'.op = "GetTemplate" /\ lastOK[last'.n] # NoT)
-        => (last'.ok /\ last'.t = lastOK[last'.n] /\ LoaderCalls(last'.calls) = <<>>) ]_vars
+        => /\ last'.ok /\ LoaderCalls(last'.calls) = <<>>
+           /\ (~EarlierCandidateCached(last'.n, lastOK[last'.n]) => last'.t = lastOK[last'.n]) ]_vars
 
 \* failures are never remembered: the cache only ever gains templates parsed successfully in this step
 FailuresNeverCached ==
